@@ -614,7 +614,7 @@ func (w *Walker) splitCall(fn *ssa.Function) (ssa.Instruction, []*ssa.Return) {
 			if g == nil || g.Blocks == nil || !inLibraryScope(funcPkgPath(g)) || isSpecTypesPkg(funcPkgPath(g)) {
 				continue
 			}
-			if a.effectFree[g] || a.isInlinable(g) || g.Signature.Results().Len() < 2 {
+			if a.effectFree[g] || a.isInlinable(g) || g.Signature.Results().Len() < 1 {
 				continue
 			}
 			if g.Object() != nil && g.Object().Exported() {
@@ -624,7 +624,35 @@ func (w *Walker) splitCall(fn *ssa.Function) (ssa.Instruction, []*ssa.Return) {
 				continue
 			}
 			sm := a.Summary(g)
-			if sm == nil || sm.resIdx < 0 {
+			if sm == nil {
+				continue
+			}
+			if sm.resIdx < 0 {
+				// no error / bool verdict: a helper that reports its outcome as a value (a result struct, an enum) from
+				// several return sites is explored once per site as well, when the returned values tell the sites apart
+				gc := a.NewFCtx(g, placeholderEnv(a, g), 0)
+				var rets []*ssa.Return
+				vals := map[string]bool{}
+				closed := true
+				for _, gb := range g.Blocks {
+					ret, ok := gb.Instrs[len(gb.Instrs)-1].(*ssa.Return)
+					if !ok {
+						continue
+					}
+					rets = append(rets, ret)
+					var ks []string
+					for _, r := range ret.Results {
+						t := gc.Term(r)
+						if t.Contains(func(x *Term) bool { return x.Op == "phi" || x.Op == "unk" }) {
+							closed = false
+						}
+						ks = append(ks, t.Key())
+					}
+					vals[strings.Join(ks, "|")] = true
+				}
+				if closed && len(rets) >= 2 && len(rets) <= 6 && len(vals) == len(rets) {
+					return in, rets
+				}
 				continue
 			}
 			gc := a.NewFCtx(g, placeholderEnv(a, g), 0)
